@@ -83,9 +83,14 @@ def run(ctx):
             continue
         if not harness.same_canon(codec.canon(d1), codec.canon(d2)):
             ctx.violation("reload-differs", "loads(t) != loads(dumps(loads(t)))", {"text": t1, "options": o})
-        # determinism in-process
+        # determinism in-process: a copy of the dictionary, and the very same dictionary object printed again
         if pp.pprint(copy.deepcopy(d1)) != t1:
             ctx.violation("nondeterministic-print", "the same dictionary and options printed differently", {"text": t1, "options": o})
+        if not o.get("separate_complex_types"):
+            a1 = pp.pprint(d1)
+            a2 = pp.pprint(d1)
+            if a1 != a2 or a1 != t1:
+                ctx.violation("print-changes-with-repetition", "printing the same dictionary object again gives a different text (the first call changed its argument)", {"text": t1, "options": o})
     # ---- key-value blocks, repeated string keywords, CONFIG and PROJECTION lines x awkward strings: formatted twice
     # under both output quotes (these values do not go through format_value)
     n_kv = 0
@@ -119,6 +124,23 @@ def run(ctx):
                     ctx.violation("format-twice-differs:" + n + ":string",
                                   "dumps(loads(t)) differs from t for the value %r written with quote %s: %r -> %r" % (w, quote, t1, t2), {"text": t1, "options": {"quote": quote}})
     ctx.count("keyvalue_string_cases", n_kv)
+    # ---- list-valued keywords holding strings (hex colour ranges, bindings): the same object printed three times
+    for t in ('STYLE COLORRANGE "#0000ff" "#ff0000" DATARANGE 1 2 END', "STYLE COLORRANGE '#00ff00' '#0000ffaa' END", 'LABEL OFFSET [ox] [oy] END',
+              'LABEL SHADOWSIZE 2 [sz] END', 'STYLE POLAROFFSET [r] [a] END', 'LAYER PROCESSING "A=1" PROCESSING "B=2" END', 'MAP EXTENT 0 0 10 10 SIZE 400 300 END'):
+        try:
+            d = sweep.fast_loads(t)
+        except Exception:
+            continue
+        ctx.note_case(("same-object", t))
+        for quote in ('"', "'"):
+            pp = PrettyPrinter(quote=quote)
+            try:
+                outs = [pp.pprint(d) for _ in range(3)]
+            except Exception as ex:
+                ctx.violation("print-changes-with-repetition", "printing the same dictionary object repeatedly raises %s" % type(ex).__name__, {"text": t, "options": {"quote": quote}})
+                continue
+            if len(set(outs)) != 1:
+                ctx.violation("print-changes-with-repetition", "printing the same dictionary object repeatedly gives different texts: %r then %r" % (outs[0], outs[-1]), {"text": t, "options": {"quote": quote}})
     # ---- determinism across processes / hash seeds
     n_proc = ctx.budget(2, 6)
     sample = cases[:: max(1, len(cases) // 25)][:25]
